@@ -190,7 +190,7 @@ func runPushRound(durMs int, at time.Duration, val int) (timedRound, string, str
 var timedExtra = core.Extra{
 	Name: "PushWait/PopWait(d>0) conservation under the real clock (unmodified ringz package)",
 	Run: func(ctx *core.Ctx) (int, string, []core.ExtraFailure) {
-		budget := 3 * time.Second
+		budget := 2 * time.Second
 		par := 96
 		if ctx.Tier == "thorough" {
 			budget = 20 * time.Second
